@@ -586,6 +586,9 @@ func (h *history) serve() {
 		dst = h.ref[ids[r.Intn(len(ids))]].s.last
 	}
 	if r.Chance(5) {
+		dst = 0 // the zero ISD-AS: ISD wildcard for ISD 0, i.e. matches no stored segment
+	}
+	if r.Chance(5) {
 		dst = mustIA("1-0") // wildcard AS: the store's ISD match (mirrored by the model)
 	}
 	op := fmt.Sprintf("srv %s %s %s", csvOr(gw), iaStr(dst), iaStr(peer))
@@ -630,6 +633,9 @@ func (h *history) serve() {
 		if len(wantSegs) > 0 {
 			tag = "srv-ok-segs"
 		}
+	}
+	if want && dst.IsZero() {
+		tag = "srv-ok-zero-dst"
 	}
 	if len(gids) == 0 {
 		tag = "~srv-no-groups"
